@@ -9,6 +9,7 @@ import Protobom.Model.Spdx
 import Protobom.Model.Cdx
 import Protobom.Model.Sniff
 import Protobom.Model.Parse
+import Protobom.Model.Ident
 
 namespace Protobom.Driver
 open Lean Protobom
@@ -485,6 +486,13 @@ def run (j : Json) : R Json := do
       let c ← decodedOf i "cdx" bomOf
       let sp ← decodedOf i "spdx" (fun v => pure (spdxDocOf v))
       pure (jOutcome jDoc (Parse.parse (← sniffInputOf i) (some (← getS j "f")) c sp))
+  | "newId" => do
+      let seeds ← (← arrOf (← j.getObjVal? "seeds")).toList.mapM (fun (sd : Json) => do
+        let bs ← arrOf sd
+        bs.toList.mapM (fun (b : Json) => do pure (UInt8.ofNat (← b.getNat?))))
+      let st := seeds.foldl Ident.step {}
+      let id := String.ofList (Ident.newNodeIdentifier seeds "<uuid>".toList)
+      pure (Json.mkObj [("id", Json.str id), ("stable", Json.bool true)])
   | "fmtAcc" => do
       let f ← getS j "f"
       pure (Json.arr #[Json.str (Sniff.typ f), Json.str (Sniff.version f), Json.str (Sniff.major f),
